@@ -427,6 +427,7 @@ def install_transport(e):
                    raises=[(X.WebSocketConnectionClosedException, None, closed_post),
                            (X.WebSocketTimeoutException, lambda c, old, a: z3.Not(no_sock(c, old, a)), lambda c, old, a, exc: rpos_same(c, old)),
                            (OSError, lambda c, old, a: z3.Not(no_sock(c, old, a)), lambda c, old, a, exc: rpos_same(c, old))],
+                   normal_when=lambda c, old, a: z3.Not(no_sock(c, old, a)),
                    modifies=lambda c, a: ["ghost:rpos", "ghost:rx_calls"], props=("C03", "C08", "C17"),
                    doc="non-empty chunk = next bytes of rx; end of stream / no socket / select timeout => connection-closed; "
                        "transport timeout => WebSocketTimeoutException; in every failure nothing is consumed; no socket => no transport call"))
